@@ -67,7 +67,7 @@ ALPHAS_SWEEP = [0.05, 0.0, 1.0]
 
 def budget(tier):
     if tier == "quick":
-        return {"examples": 3200, "shards": 16}
+        return {"examples": 4800, "shards": 16}
     return {"examples": 160000, "shards": 16}
 
 
@@ -200,7 +200,8 @@ def strategy(tier):
     @st.composite
     def case(draw):
         variant = draw(st.sampled_from(["tally", "tally", "eb", "eb_sub", "eb_sub", "eb_sub", "eb_sub1",
-                                        "tally", "eb_sub", "counter", "eb_counter", "eb_counter_sub"]))
+                                        "tally", "eb_sub", "tally", "eb_sub1", "eb", "eb_sub", "tally",
+                                        "counter", "eb_counter", "eb_counter_sub"]))
         via = draw(st.sampled_from(["register", "register", "notify"]))
         if variant.startswith("counter") or variant.startswith("eb_counter"):
             val = st.one_of(st.just(1), st.integers(-5, 5), st.integers())
@@ -729,7 +730,8 @@ def run_case(case):
         nontrivial = True
     if nontrivial and compared:
         out.nontrivial = True
-    out.label("n<=%d" % next(b for b in (0, 1, 3, 10, 50, 300, 10 ** 9) if nmax <= b))
+    out.label("n:" + next(lb for b, lb in ((0, "0"), (1, "1"), (3, "2-3"), (10, "4-10"), (50, "11-50"),
+                                           (300, "51-300"), (10 ** 9, ">300")) if nmax <= b))
     out.info = {"final_n": orc.n, "compared_states": compared}
     return out
 
